@@ -20,6 +20,7 @@ import re
 import assume as S
 import defuse
 import extract
+import sqlfx
 import zf
 from common import Check
 
@@ -198,6 +199,9 @@ def main(tier):
     chk.rule("DIRTY", "every state mutation of advance_migration marks the state dirty and a dirty "
                       "state is persisted before returning", floor=8)
     chk.rule("CHANGED", "the store's rollback persists whenever the rolled-back state differs", floor=1)
+    chk.rule("TAKE", "hand-out for broadcast only from Proved", floor=1)
+    chk.rule("READY", "the status view reports ready only with mined dependencies", floor=2)
+    chk.rule("FIXPT", "the dead set is closed over dependents to a fixpoint", floor=1)
     chk.rule("control", "positive controls", floor=2)
 
     w = zf.World(extract.facts_dir("all"), ["zcash_pool_migration", "zcash_client_sqlite",
@@ -236,6 +240,9 @@ def main(tier):
     chk.analysed["lifecycle_and_status_stores"] = nstores
 
     guards(chk, w)
+    take_guard(chk, w, names)
+    ready_needs_deps(chk, w)
+    dead_set_fixpoint(chk, w)
     columns(chk, w)
     dirty_rules(chk, w)
     change_detect(chk, w)
@@ -373,6 +380,136 @@ def status_store(chk, w, f, du, bi, s, key, loc):
 
 
 # ---------------------------------------------------------------------- GUARD
+def take_guard(chk, w, names):
+    """A transaction is handed out for broadcast only from the state Proved: of the arms of the switch
+    on the row's state in take_transaction_for_broadcast, exactly the Proved one can reach anything
+    but an error return."""
+    import assume as S2
+    fs = [f for f in w.fns.values() if f.p.endswith("::take_transaction_for_broadcast") and
+          "pool_migration::orchard_ironwood" in f.p and not f.is_closure() and not is_test(f)]
+    if len(fs) != 1:
+        chk.fail("TAKE", "missing", "take_transaction_for_broadcast not found (%d)" % len(fs))
+        return
+    f = fs[0]
+    b, du = f.body, defuse.DefUse(f.body)
+    sws = []
+    for bi, blk in enumerate(b.blocks):
+        t = blk.term
+        if blk.cleanup or t.kind != "switch":
+            continue
+        o = du.origin(t.discr)
+        if o[0] == "disc" and re.match(r"^state\(", defuse.show(o[1])):
+            sws.append(bi)
+    if len(sws) != 1:
+        chk.fail("TAKE", "state-test", "expected one test of the row's state, found %d" % len(sws), f.span.loc())
+        return
+    t = b.blocks[sws[0]].term
+    admitted = []
+    arms = list(t.arms) + [("else", t.otherwise)]
+    for v, tb in arms:
+        if tb is None:
+            continue
+        res = S2.explore(b, tb, {}, limit=60000)
+        rets = {rv for _b, rv in res.returns}
+        if res.too_big or not rets <= {"variant:Err"}:
+            if v == "else":
+                admitted += [n for i, n in enumerate(names) if i not in [a for a, _x in t.arms]]
+            elif isinstance(v, int) and v < len(names):
+                admitted.append(names[v])
+    if sorted(admitted) == ["Proved"]:
+        chk.ok("TAKE", "take_transaction_for_broadcast goes on only from Proved; every other state returns an error",
+               sample=True)
+    else:
+        chk.fail("TAKE", "admitted", "take_transaction_for_broadcast hands out a transaction whose state is %s: an "
+                 "in-flight or unproved transaction can be handed out for broadcast" % sorted(admitted), f.span.loc())
+
+
+def ready_needs_deps(chk, w):
+    """The status view reports a step as ready only when the transaction's dependencies are mined:
+    every `(true, Some(action), ..)` row of transaction_statuses lies on the true edge of deps_mined."""
+    import guards as G
+    n = 0
+    for f in w.fns.values():
+        if not re.search(r"MigrationState>::transaction_statuses(::\{closure#\d+\})*$", f.p) or is_test(f):
+            continue
+        b, du = f.body, defuse.DefUse(f.body)
+        for bi, blk in enumerate(b.blocks):
+            if blk.cleanup:
+                continue
+            for s in blk.stmts:
+                if not (s.kind == "=" and s.rv.kind == "agg" and s.rv.agg[0] == "tuple" and len(s.rv.ops) == 3 and
+                        s.rv.ops[0].kind == "const" and s.rv.ops[0].ty == "bool" and s.rv.ops[0].info.get("v")):
+                    continue
+                n += 1
+                act = defuse.show(du.origin(s.rv.ops[1])).rsplit("::", 1)[-1].strip("{}")
+                deps = False
+                for sw, v, _tb in G.edge_conditions(b, bi):
+                    o = du.origin(b.blocks[sw].term.discr)
+                    if o[0] == "call" and o[1].endswith("::deps_mined") and G.truth(b.blocks[sw].term, v) is True:
+                        deps = True
+                if deps:
+                    chk.ok("READY", "transaction_statuses: `ready, %s` only with the dependencies mined" % act, sample=(n == 1))
+                else:
+                    chk.fail("READY", "transaction_statuses/%s" % act, "a transaction is reported ready for %s without "
+                             "its dependencies being tested as mined" % act, s.span.loc())
+    if n < 2:
+        chk.fail("READY", "missing", "expected the ready rows (Prove, Broadcast) of transaction_statuses, found %d" % n)
+
+
+def dead_set_fixpoint(chk, w):
+    """dead_set closes over dependents in whatever order the transactions are held: the pass that adds
+    a transaction with a dead dependency is repeated until a pass adds nothing (the insertion sits in
+    two nested loops and sets the flag whose being clear is the only way out of the outer one)."""
+    fs = [f for f in w.fns.values() if re.search(r"MigrationState>::dead_set$", f.p) and not is_test(f)]
+    if len(fs) != 1:
+        chk.fail("FIXPT", "missing", "dead_set not found")
+        return
+    f = fs[0]
+    b, du = f.body, defuse.DefUse(f.body)
+    cyc = sqlfx.cyclic_blocks(b)
+    ins = [bb for bb, t in b.calls() if not b.blocks[bb].cleanup and t.callee.indirect is None and
+           t.callee.target_p().endswith("::insert") and bb in cyc]
+    if not ins:
+        chk.fail("FIXPT", "insert", "no insertion into the dead set inside a loop", f.span.loc())
+        return
+    ok = False
+    why = "the closing pass is not repeated"
+    for ib in ins:
+        # loop headers: blocks that dominate the insertion and lie on a cycle with it
+        hdrs = [h for h in (b.dominators().get(ib, set())) if h in cyc and ib in b.reachable(h) and h in b.reachable(ib)
+                and any(p in b.reachable(h) and b.dominates(h, p) for p in b.preds().get(h, []) if p != h)]
+        # a boolean flag set true after the insertion and tested on the way out
+        flags = []
+        for l, ds in du.defs.items():
+            if b.local_ty(l) != "bool" or len(ds) < 2:
+                continue
+            sets_true = [bi for k, bi, x in ds if k == "stmt" and x.rv.kind == "use" and x.rv.ops[0].kind == "const" and
+                         x.rv.ops[0].info.get("v")]
+            if any(bi == ib or bi in b.reachable(ib) for bi in sets_true):
+                tested = [sw for sw, blk in enumerate(b.blocks) if blk.term.kind == "switch" and sw in cyc and
+                          (lambda r: r is not None and len(r) == 2 and r[1] == l)(
+                              du.root_local(blk.term.discr.place) if blk.term.discr.kind in ("copy", "move") else None)
+                          or (blk.term.kind == "switch" and sw in cyc and blk.term.discr.kind in ("copy", "move") and
+                              not blk.term.discr.place.proj and du.single(blk.term.discr.place.local) is not None and
+                              du.single(blk.term.discr.place.local)[0] == "stmt" and
+                              du.single(blk.term.discr.place.local)[2].rv.kind in ("use", "un") and
+                              du.single(blk.term.discr.place.local)[2].rv.ops[0].kind in ("copy", "move") and
+                              du.single(blk.term.discr.place.local)[2].rv.ops[0].place.local == l)]
+                if tested:
+                    flags.append(l)
+        depth = len(set(hdrs))
+        if depth >= 2 and flags:
+            ok = True
+        else:
+            why = "the insertion lies in %d nested loop(s) and %d growth flag(s) decide the exit" % (depth, len(flags))
+    if ok:
+        chk.ok("FIXPT", "dead_set repeats its closing pass until a pass adds nothing (fixpoint), whatever the order of "
+               "the transactions", sample=True)
+    else:
+        chk.fail("FIXPT", "dead_set", "dead_set does not iterate to a fixpoint: %s — a dependent listed before its dead "
+                 "dependency stays live" % why, f.span.loc())
+
+
 def guards(chk, w):
     fs = [f for f in w.fns.values() if re.search(r"MigrationState>::next_broadcastable$", f.p)]
     if len(fs) != 1:
